@@ -345,7 +345,7 @@ pub fn exec_async(plan: &Plan, twin: &Layout, pool: &Pool, pool_size: usize, dp:
             return;
         }
     };
-    let mut ad = b.build_async(full_world());
+    let mut ad = b.build_async(crate::res::full_world_with(plan.slots_used().into_iter()));
     let (shape, ntl) = ad.verif_shape();
     if shape != twin.shape() || ntl != twin.tls.len() {
         sum.findings.push(Finding::new(
@@ -471,11 +471,11 @@ pub fn exec_async(plan: &Plan, twin: &Layout, pool: &Pool, pool_size: usize, dp:
 fn profiles_for(prop: &str) -> &'static [Profile] {
     use Profile::*;
     match prop {
-        "c01" => &[SparseWide, Dense, Dense, Funnel, Mixed, Mixed, Batchy, DepFans, Tiny, Tiny],
-        "c02" => &[DepChains, DepChains, DepFans, DepFans, Mixed, Batchy, Tiny],
-        "c03" => &[BarrierHeavy, BarrierHeavy, BarrierHeavy, Mixed, Batchy],
+        "c01" => &[SparseWide, Dense, Dense, Funnel, Mixed, Mixed, Batchy, DepFans, Tiny, Tiny, WideStage],
+        "c02" => &[DepChains, DepChains, DepChains, DepFans, DepFans, DepFans, Mixed, Mixed, Batchy, Batchy, Tiny, Tiny, WideStage],
+        "c03" => &[BarrierHeavy, BarrierHeavy, BarrierHeavy, BarrierHeavy, BarrierHeavy, BarrierHeavy, Mixed, Mixed, Batchy, Batchy, Huge, WideStage],
         "c07" => &[Batchy],
-        "c10" => &[SparseWide, Dense, Funnel, DepChains, DepFans, BarrierHeavy, Batchy, Names, Mixed, Tiny, Huge],
+        "c10" => &[SparseWide, Dense, Funnel, DepChains, DepFans, BarrierHeavy, Batchy, Names, Mixed, Tiny, Huge, WideStage],
         "c12" => &[Mixed, Batchy, Tiny, SparseWide],
         _ => &[Mixed],
     }
@@ -495,16 +495,36 @@ fn shape_cfg(prop: &str, c: &mut LevelCfg, rng: &mut Rng) {
             c.depth_left = rng.range(1, 3);
             c.n = (2, 7);
             c.p_static = 30;
-            // few slots so that the batch's access matters to its outer siblings
-            let all: Vec<_> = crate::res::Slot::all().filter(|s| s.dy() == 0).collect();
-            let k = rng.range(3, 8);
-            c.slots = pick_slots(rng, &all, k);
+            if rng.chance(1, 6) {
+                // long access lists: systems and batches with dozens of resources each, so that a
+                // group's combined list runs to 32..100+ entries
+                c.slots = crate::res::Slot::all_ext().collect();
+                c.p_wide = rng.range(20, 60);
+                c.max_r = 3;
+                c.max_w = 3;
+                c.n = (3, 9);
+                c.p_static = 10;
+            } else {
+                // few slots so that the batch's access matters to its outer siblings
+                let all: Vec<_> = crate::res::Slot::all().filter(|s| s.dy() == 0).collect();
+                let k = rng.range(3, 8);
+                c.slots = pick_slots(rng, &all, k);
+            }
         }
         "c03" => {
-            if c.p_barrier < 15 {
+            if c.n.0 >= 200 {
+                // long registration sequences: barriers after 255..257 / 511..513 registrations
+                c.seg_boundary = true;
+                c.p_barrier = 0;
+            } else if c.p_barrier < 15 {
                 c.p_barrier = 20;
             }
             c.tl = (0, 2);
+        }
+        "c02" if c.n.0 >= 200 => {
+            // one very wide stage: dependencies on systems that sit in far groups
+            c.p_dep = rng.range(3, 12);
+            c.p_noaccess = rng.range(85, 100);
         }
         "c02" => {
             c.p_static = 5;
